@@ -351,6 +351,57 @@ def sync_assembly(ctx, repo):
     retry_obligations(ctx, repo, "R5")
 
 
+def simulator_chain_concrete(ctx, repo, fi):
+    """R6, concrete half: the simulator's answer to STATU(start, length) is interpreted for every length 1..160
+    (all residues modulo the segment size, up to four full segments) plus the full block, from several starts:
+    indices count up from 0, `next` is index+1 except 0 on the last segment, and the concatenated payload begins
+    with exactly the requested bytes of the block."""
+    from ..absint import BoundMethod, Interp, Native, Obj, Opaque, PyRaise, Undecided
+    block = bytes((i * 7 + 3) % 251 for i in range(1024))
+    bad = None
+    n_cases = 0
+    interp = Interp(repo, max_depth=8)
+    sent = []
+
+    def hook(it, node, callee, args, kwargs):
+        if isinstance(callee, BoundMethod) and callee.fi.qual == "GeckoStatusBlockProtocolHandler.response":
+            return ("segment", args[0], args[1], args[2])
+        return NotImplemented
+    interp.call_hook = hook
+    from ..facademodel import init_defaults
+    attrs = init_defaults(repo, "GeckoSimulator")
+    attrs.update({"structure": Obj(None, {"status_block": block}), "_socket": Obj(None, {"queue_send": Native(lambda a, k: sent.append(a[0]))})})
+    me = Obj(fi.cls, attrs)
+    interp.attr_hook = lambda _i, b_, a_: (Native(lambda a, k: False) if (b_ is me and a_ == "_should_ignore") else NotImplemented)
+    lengths = list(range(1, 1025))
+    for start in (0, 5, 256, 612):
+        for L in lengths:
+            if start + L > 1024:
+                continue
+            sent.clear()
+            h = Obj(None, {"start": start, "length": L, "sequence": 1})
+            try:
+                interp.steps = 0
+                interp.call(fi, me, [h, ("1.1.1.1", 1)])
+            except PyRaise as e:
+                bad = bad or (start, L, f"raises {e.what}")
+                continue
+            except Undecided as e:
+                raise AnalysisError(f"{fi.qual}: cannot interpret: {e}")
+            n_cases += 1
+            segs = [s_ for s_ in sent if isinstance(s_, tuple) and s_ and s_[0] == "segment"]
+            idx = [s_[1] for s_ in segs]
+            nxt = [s_[2] for s_ in segs]
+            data = b"".join(s_[3] for s_ in segs if isinstance(s_[3], (bytes, bytearray)))
+            okc = bool(segs) and idx == list(range(len(segs))) and nxt == list(range(1, len(segs))) + [0] and data[:L] == block[start:start + L]
+            if not okc and bad is None:
+                bad = (start, L, f"indices {idx[:6]}.., next {nxt[:6]}.., {len(data)} payload bytes, first mismatch at {next((i for i in range(min(L, len(data))) if data[i] != block[start + i]), min(L, len(data)))}")
+    ctx.ob("R6", f"{fi.qual}::chain-delivers-the-requested-bytes", bad is None,
+           f"{fi.qual}: STATU(start={bad[0] if bad else ''}, length={bad[1] if bad else ''}) is answered with {bad[2] if bad else ''}: a client on a fault-free network cannot assemble the requested range", fi.loc,
+           sample={"rule": "R6", "cases": n_cases})
+    ctx.floor("R6", "simulator (start, length) cases interpreted", n_cases, 2500)
+
+
 def simulator_chain(ctx, repo):
     fi = repo.method("GeckoSimulator", "_on_status_block")
     g = cfg_of(fi)
@@ -360,10 +411,11 @@ def simulator_chain(ctx, repo):
     if len(loops) != 1:
         return
     lp = loops[0].ast
-    it = lp.iter
+    it = g.expand(lp.iter, at=loops[0], consts=fi.mod.consts)  # `starts = range(..)` ... `enumerate(starts)`
     ok = isinstance(it, ast.Call) and call_name(it) == "enumerate" and it.args and isinstance(it.args[0], ast.Call) and call_name(it.args[0]) == "range" and len(it.args[0].args) == 3
-    ctx.ob("R6", f"{key}::enumerate-range", ok, f"{fi.qual}: segment loop is not `for idx, start in enumerate(range(A, A+L, S))`", loc(fi, lp))
+    simulator_chain_concrete(ctx, repo, fi)
     if not ok:
+        ctx.error(f"{fi.qual}: segment loop `{ast.unparse(lp.iter)}` is not `for idx, start in enumerate(range(A, A+L, S))` - the for-every-length argument (residue-affine domain) does not apply to this idiom")
         return
     A, stop, step = it.args[0].args
     fold = lambda e: repo.fold(e, fi.mod, fi.cls)  # noqa
